@@ -75,7 +75,7 @@ theorem DstSpec.perfect_neverFails : DstSpec.perfect.NeverFails := by
 
 theorem Dst.write_neverFails (hS : S.NeverFails) (d : Dst S) (b : Bytes) : (d.write b).2 = true := by
   unfold Dst.write
-  have := hS d.st d.acc.length b.length
+  have := hS d.st d.acc.length b
   split
   · rfl
   · rename_i s' n heq; rw [heq] at this; simp at this
